@@ -405,8 +405,10 @@ func mustStoreOut(fn *ssa.Function) map[*ssa.BasicBlock]map[string]bool {
 	for _, b := range fn.Blocks {
 		g := map[string]bool{}
 		for _, in := range b.Instrs {
-			if name, _ := interpFieldStore(in); name != "" {
-				g[name] = true
+			if names, _, _ := interpFieldStores(in); len(names) > 0 {
+				for _, name := range names {
+					g[name] = true
+				}
 			}
 			// a function of the package called here: what it definitely stores when it succeeds
 			if call, ok := in.(*ssa.Call); ok {
@@ -428,9 +430,15 @@ func mustStoreOut(fn *ssa.Function) map[*ssa.BasicBlock]map[string]bool {
 	for _, b := range fn.Blocks {
 		top[b] = true
 	}
+	// under a binding of boolean parameters to constants (a helper entered from a call site that passes true or false)
+	// only the blocks that can run are considered
+	live := liveUnderParamBind(fn)
 	for changed {
 		changed = false
 		for _, b := range fn.Blocks {
+			if live != nil && !live[b] {
+				continue
+			}
 			var in map[string]bool
 			first := true
 			if len(b.Preds) == 0 {
@@ -440,6 +448,9 @@ func mustStoreOut(fn *ssa.Function) map[*ssa.BasicBlock]map[string]bool {
 			for _, p := range b.Preds {
 				if top[p] {
 					continue
+				}
+				if live != nil && deadEdgeUnderParamBind(p, b) {
+					continue // the branch in p cannot take this edge under the binding
 				}
 				if first {
 					in = copySet(out[p])
@@ -507,4 +518,95 @@ func sortedKeys(m map[string]string) []string {
 	}
 	sort.Strings(o)
 	return o
+}
+
+// curParamBind: boolean parameters known to be constants during a descent into a helper (set by the caller of the
+// must-store analyses for the duration of the descent).
+var curParamBind map[*ssa.Parameter]bool
+
+// liveUnderParamBind: the blocks of fn reachable from its entry when branches on a bound boolean parameter take only
+// their possible edge; nil when no parameter of fn is bound.
+func liveUnderParamBind(fn *ssa.Function) map[*ssa.BasicBlock]bool {
+	any := false
+	for _, p := range fn.Params {
+		if _, ok := curParamBind[p]; ok {
+			any = true
+		}
+	}
+	if !any || len(fn.Blocks) == 0 {
+		return nil
+	}
+	val := func(v ssa.Value) (bool, bool) {
+		neg := false
+		for {
+			if u, ok := v.(*ssa.UnOp); ok && u.Op == token.NOT {
+				v, neg = u.X, !neg
+				continue
+			}
+			break
+		}
+		if p, ok := v.(*ssa.Parameter); ok {
+			if b, ok := curParamBind[p]; ok {
+				return b != neg, true
+			}
+		}
+		return false, false
+	}
+	live := map[*ssa.BasicBlock]bool{}
+	var walk func(b *ssa.BasicBlock)
+	walk = func(b *ssa.BasicBlock) {
+		if live[b] {
+			return
+		}
+		live[b] = true
+		if len(b.Instrs) > 0 {
+			if iff, ok := b.Instrs[len(b.Instrs)-1].(*ssa.If); ok {
+				if v, known := val(iff.Cond); known {
+					if v {
+						walk(b.Succs[0])
+					} else {
+						walk(b.Succs[1])
+					}
+					return
+				}
+			}
+		}
+		for _, s := range b.Succs {
+			walk(s)
+		}
+	}
+	walk(fn.Blocks[0])
+	return live
+}
+
+// deadEdgeUnderParamBind: block p ends in a branch on a bound boolean parameter and the edge to b is the one not taken.
+func deadEdgeUnderParamBind(p, b *ssa.BasicBlock) bool {
+	if len(p.Instrs) == 0 {
+		return false
+	}
+	iff, ok := p.Instrs[len(p.Instrs)-1].(*ssa.If)
+	if !ok || len(p.Succs) != 2 || p.Succs[0] == p.Succs[1] {
+		return false
+	}
+	v, neg := iff.Cond, false
+	for {
+		if u, ok := v.(*ssa.UnOp); ok && u.Op == token.NOT {
+			v, neg = u.X, !neg
+			continue
+		}
+		break
+	}
+	prm, ok := v.(*ssa.Parameter)
+	if !ok {
+		return false
+	}
+	val, ok := curParamBind[prm]
+	if !ok {
+		return false
+	}
+	taken := p.Succs[1]
+	if val != neg {
+		taken = p.Succs[0]
+	}
+	return b != taken
 }
